@@ -105,3 +105,49 @@ Theorem C07_output_scaffolds_well_formed : forall c g prefix bpt input pretext o
     sc_rows sc <> [] /\ (exists f t, sc_rows sc = RF f :: t) /\ (exists f t, sc_rows sc = t ++ [RF f]).
 Proof. exact Proofs.PipelineInv.output_scaffolds_well_formed. Qed.
 Print Assumptions C07_output_scaffolds_well_formed.
+
+(* NEIGHBOUR GAPS, end to end through [remap], for EVERY input (rows >= 1 bp)
+   and EVERY Pretext map: when two fragments follow each other in an output
+   scaffold with only the gap rows [mid] between them (mid = []: directly
+   adjacent), then mid is exactly the join gap, or the two fragments are pieces
+   of two input contigs that followed each other in ONE input scaffold with
+   exactly the same gap rows between them (in the same direction, or -- a piece
+   presented reversed -- in the opposite direction, strands inverted), or
+   (third case, left-over scaffolds only) they are two never-found contigs of
+   one input scaffold with a found contig between them, separated by the single
+   input gap that directly preceded the second one.  Hence: directly adjacent
+   output fragments were directly adjacent in the input; a gap run that is not
+   the join gap is an input gap run. *)
+From Tola Require Proofs.NeighbourGaps.
+Theorem C07_neighbour_gaps : forall g prefix bpt input pretext o,
+  Forall (fun isc => Model.Lookup.pos_rows (snd isc)) input ->
+  remap repaired g prefix bpt input pretext = Ok o ->
+  forall a sc x mid y,
+    In a (out_asms o) -> In sc (oa_scaffolds a) ->
+    Proofs.NeighbourGaps.consecutive (sc_rows sc) x mid y ->
+    mid = [g] \/ Proofs.NeighbourGaps.same_neighbours input x mid y
+    \/ Proofs.NeighbourGaps.skipped_neighbours input x mid y.
+Proof. exact Proofs.NeighbourGaps.neighbour_gaps_end_to_end. Qed.
+Print Assumptions C07_neighbour_gaps.
+
+(* the third case is real (found while proving: the two-case statement is
+   refuted by input A -100- B -57- C with a map that shows only B: the output
+   holds A -57- C), and it occurs only inside one left-over scaffold -- never
+   inside a placed piece, never across a fusion boundary.  Maps PretextView can
+   produce tile every scaffold, so a found contig between two never-found ones
+   does not occur there (DESIGN 13.5). *)
+Theorem C07_two_case_statement_refuted : ~ Proofs.NeighbourGaps.neighbour_gaps_original_statement.
+Proof. exact Proofs.NeighbourGaps.neighbour_gaps_original_refuted. Qed.
+Print Assumptions C07_two_case_statement_refuted.
+
+(* with the original two-way conclusion when every input gap equals the join gap *)
+Theorem C07_neighbour_gaps_uniform : forall g prefix bpt input pretext o,
+  Forall (fun isc => Model.Lookup.pos_rows (snd isc)) input ->
+  (forall isc gp, In isc input -> In (RG gp) (snd isc) -> gp = g) ->
+  remap repaired g prefix bpt input pretext = Ok o ->
+  forall a sc x mid y,
+    In a (out_asms o) -> In sc (oa_scaffolds a) ->
+    Proofs.NeighbourGaps.consecutive (sc_rows sc) x mid y ->
+    mid = [g] \/ Proofs.NeighbourGaps.same_neighbours input x mid y.
+Proof. exact Proofs.NeighbourGaps.neighbour_gaps_uniform_gaps. Qed.
+Print Assumptions C07_neighbour_gaps_uniform.
